@@ -195,6 +195,16 @@ class EventSeriesClimateNetwork(EventSeries, ClimateNetwork):
                                 threshold=0, directed=self.directed,
                                 **CN_kwargs)
 
+    def __cache_state__(self):
+        #  Both parents contribute mutable state. Without this override, the
+        #  MRO resolves to the first parent only, and network measures are
+        #  not invalidated when the network is regenerated.
+        state = EventSeries.__cache_state__(self)
+        if hasattr(self, "_mut_A"):
+            #  (not yet the case while the first parent is initialised)
+            state += ClimateNetwork.__cache_state__(self)
+        return state
+
     def __str__(self):
         """
         Return a string representation of EventSeriesClimateNetwork.
